@@ -116,6 +116,31 @@ CHECKS['C06'] = dict(
     assumptions=['fault model: errors/indeterminate answers at dependency boundaries, not memory corruption', 'herumi BLS verification is trusted'],
 )
 
+CHECKS['C03'] = dict(
+    pkg='c03', level='fault_enumeration',
+    technique='crash-point enumeration over rapid-generated histories: self-kill at every storage/sign/reply hook event and external SIGKILL, restart and conflicting probes; durability invariant over the strace syscall trace with restart on the power-loss image',
+    level_text=('L1 (in process): at every AccountSigner.Sign invocation the exported record of the key must already dominate the request. '
+                'L2: for each generated history the crash child (real signer stack, real badger) is killed at every hook event (store fetch/store/batch '
+                'enter+exit, sign enter/exit, return, each release; a drawn subset when there are more than 24/48), and by an external SIGKILL at drawn '
+                'instants; after restart on the same directory the export must dominate every signature that reached the pipe, fresh conflicting probes '
+                '(double vote, surrounding, surrounded, same/lower slot) and the rest of the history must stay slashing-free, including after a second crash. '
+                'L3: the first lifetime runs under strace; at every release marker every byte written to *.vlog/MANIFEST must be durable (O_DSYNC or fsync), '
+                'and the restart happens on the power-loss image (files cut to their durable length).'),
+    level_note=('Power-loss model is per-file durable prefix (no torn sectors, no directory-entry loss); kernel, file system and badger recovery are trusted. '
+                'Crash points are enumerated per history; histories are sampled.'),
+    parts=[part('TestC03Record', 300, 3000), part('TestC03Kill', 25, 80, qshards=4), part('TestC03Power', 10, 40, qshards=2)],
+    rule=('a case is one (history, crash plan): history of 1-8 single/batch/proposal requests from the C01 generator, crash point k = n-th hook event '
+          '(self-kill) or n-th stdout line (external SIGKILL), optional second crash; non-trivial iff a signature had been released before the kill or the '
+          'kill fell after the first storage read of a request (inside the record/sign/reply window); for L1 a history in which at least one Sign invocation '
+          'was checked; distinct = sha256 of the case JSON'),
+    essential=['kill@store.fetch.enter', 'kill@store.fetch.exit', 'kill@store.store.enter', 'kill@store.store.exit', 'kill@store.batch.enter',
+               'kill@store.batch.exit', 'kill@sign.enter', 'kill@sign.exit', 'kill@return', 'kill@released', 'double-crash', 'external-sigkill',
+               'kill-after-a-release', 'traced', 'release-markers-checked-for-durability', 'record-checked-at-sign-invocation',
+               'history-with-all-crash-points-enumerated'],
+    assumptions=['strace -f -y is available and ptrace is permitted', 'badger recovery code and the kernel are trusted',
+                 'a Dirk that cannot restart refuses everything (class restart-failed, not a violation)'],
+)
+
 ENGINES = [
     dict(name='rapid-harness', path='/verif/harness', kind_free_text='Go test module (pgregory.net/rapid v1.3.0) compiled against /repo with -tags verif; driver /verif/check shards by seed, merges coverage, writes evidence',
          serves_properties=sorted(CHECKS)),
